@@ -10,6 +10,12 @@ CLAIMED = {
     "C08": dict(
         text="Same machinery as C07 for error codes: theorem that the values are consecutive from 10 in declaration order, root ancestor first, for every accepted file set; correspondence against the MIR and the constants printed by all four backends.",
         ref="7 (C08), 5", technique="Coq proof over Gallina model + regenerated CodeFacts + differential correspondence"),
+    "C02": dict(
+        text="Theorems: the transcribed `impl Ord for Param` equals the table printed by the real comparison on all 18x18 parameter classes (regenerated each run), `lt` is a comparison of six ranks, the stable sort is the concatenation of the rank buckets, the event sequence driving every visitor has a closed form, and outside two named classes the slot sequence is BI*BO*OI*OO* for every parameter list; the counts word is injective exactly below 16. The unrestricted statements are refuted by machine-checked witnesses (object-bearing struct values, input object array after output object, no <=15 limit), which are the known findings. Tie: L0 plan correspondence through the real visit_params_with_bundling/Counter, L1 counts and raw slot kinds scraped from C, C++ and Rust stubs and skeleton counts.",
+        ref="7 (C02), 12", technique="Coq proof (rank/bucket/closed-form/section order) + generated CmpTable + differential correspondence; refutation witnesses for the known classes"),
+    "C15": dict(
+        text="Theorems: appending members to an interface leaves the numbering (op-codes, error values, resolved parameters, positions) of all its pre-existing and inherited members unchanged; added declarations do not change what existing names resolve to; a method's plan depends on its parameter list only. Tie: revision pairs through the real passes (L0, Coq-evaluated comparison of ids, error values and plans) and byte-equality of the generated per-method fragments in C, C++ and Rust (L1).",
+        ref="7 (C15)", technique="Coq proof + differential execution on generated revision pairs"),
 }
 NOTE = ("Trusted: Coq 8.16.1 kernel (vm_compute used; no native_compute), no axioms; lib/translate.py; the harness crate; "
         "python driver and scrapers. Modelled rather than verified: all of /repo (theorems are about coq/theories; the tie is "
